@@ -147,14 +147,14 @@ def install(r):
     _state['installed'] = True
     for name in ('get_cell', 'get_cells', 'get_sheet'):
         f = getattr(Executor, name)
-        f = icontract.ensure(query_leaves_state, error=ContractBroken)(f)
-        f = icontract.snapshot(executor_state, name='st')(f)
+        f = icontract.ensure(query_leaves_state, error=ContractBroken, enabled=True)(f)
+        f = icontract.snapshot(executor_state, name="st", enabled=True)(f)
         setattr(Executor, name, f)
     f = Executor.set_cells
-    f = icontract.ensure(set_cells_post, error=ContractBroken)(f)
-    f = icontract.snapshot(executor_state, name='st')(f)
+    f = icontract.ensure(set_cells_post, error=ContractBroken, enabled=True)(f)
+    f = icontract.snapshot(executor_state, name="st", enabled=True)(f)
     Executor.set_cells = f
-    Parser.get_translation = icontract.ensure(translation_is_loadable_text, error=ContractBroken)(Parser.get_translation)
+    Parser.get_translation = icontract.ensure(translation_is_loadable_text, error=ContractBroken, enabled=True)(Parser.get_translation)
     for cls, names in ((Executor, ('set_executed_class', 'set_cells', 'get_cell', 'get_cells', 'get_sheet')),
                        (Parser, ('set_excel_file_path', 'set_entrypoint_cell', 'enable_safety_check', 'disable_safety_check',
                                  'get_translation', 'write_translation'))):
